@@ -132,10 +132,48 @@ def eval_real(pt, case):
                                   [float(v) for v in nsf.D2O_match(text + "@%r" % f.density, table=T, **kw)])
         except Exception as e:  # noqa
             out["private"] = "raises %s: %s" % (type(e).__name__, e)
+    # both beam keywords at once (energy and a wavelength that does not correspond to it): whatever the
+    # calculators make of that, the solution at volume fraction 1 is still the substituted compound
+    out["both"] = None
+    if case["beam"][0] == "energy":
+        kw2 = dict(kw, wavelength=wavelength_of(case) * 2.5)
+        try:
+            out["both"] = (sld3(nsf.D2O_sld(f, volume_fraction=1.0, D2O_fraction=case["d"], **kw2)),
+                           sld3(nsf.neutron_sld(sub, **kw2)))
+        except Exception as e:  # noqa
+            out["both"] = "raises %s: %s" % (type(e).__name__, e)
+    # a private table whose deuterium was revised: the match point is the match point of *that* water
+    out["revised"] = None
+    if zlib.crc32(repr(case["atoms"]).encode()) % 4 == 1:
+        try:
+            text = str(f)
+            from periodictable.formulas import formula as _formula
+            if _formula(text) == f:
+                T2 = revised_table()
+                comp = text + "@%r" % f.density
+                fm2, ms2 = [float(v) for v in nsf.D2O_match(comp, table=T2, **kw)]
+                out["revised"] = (fm2, ms2, [float(nsf.D2O_sld(comp, volume_fraction=v, D2O_fraction=fm2, table=T2, **kw)[0])
+                                             for v in (0.0, 0.37, 1.0)])
+        except Exception as e:  # noqa
+            out["revised"] = "raises %s: %s" % (type(e).__name__, e)
     return out
 
 
 _PRIVATE = []
+_REVISED = []
+
+
+def revised_table():
+    if not _REVISED:
+        from periodictable import core, mass, density, nsf
+        T = core.PeriodicTable("c16-revised")
+        mass.init(T); density.init(T); nsf.init(T)
+        for atom, k in ((T.D, 1.07), (T.O, 0.96)):
+            n = atom.neutron
+            n.b_c = n.b_c * k
+            n.b_c_complex = n.b_c_complex * k
+        _REVISED.append(T)
+    return _REVISED[0]
 
 
 def private_table():
@@ -172,6 +210,23 @@ def judge(run, pt, orc, case, replies):
             run.violation("D2O_sld / D2O_match of a string compound with table=<fresh private table> differ from the "
                           "public results: %r / %r vs %r / %r" % (pr[0][:2], pr[1][0], out["sld"][:2], out["match"][0]),
                           case, site="private-table")
+    if out.get("both") is not None:
+        pr = out["both"]
+        if isinstance(pr, str):
+            run.violation("D2O_sld with energy= and wavelength= %s" % pr, case, site="both-beam-keywords")
+        elif not all(tol_close(a, b, scale) for a, b in zip(pr[0][:2], pr[1][:2])):
+            run.violation("with energy= and wavelength= both given, D2O_sld at volume fraction 1 (%r) is not neutron_sld of "
+                          "the substituted compound with the same keywords (%r)" % (pr[0][:2], pr[1][:2]), case,
+                          site="both-beam-keywords")
+    if out.get("revised") is not None:
+        pr = out["revised"]
+        if isinstance(pr, str):
+            run.violation("D2O_match / D2O_sld with table=<private table with revised D and O> %s" % pr, case, site="revised-table")
+        elif math.isfinite(pr[0]):
+            s3 = (scale + max(abs(x) for x in pr[2])) * (1 + abs(pr[0]))
+            if not all(tol_close(x, pr[1], s3, rel=1e-8) for x in pr[2]):
+                run.violation("on a private table with revised D and O, the real SLD at the reported match fraction %r depends on "
+                              "the volume fraction: %r (reported %r)" % (pr[0], pr[2], pr[1]), case, site="revised-table")
     # (a) solute = substituted compound, at unchanged cell volume
     sub = out["substituted"]
     if not tol_close(sub.mass / sub.density, f.mass / f.density, f.mass / f.density):
